@@ -6,6 +6,7 @@ import (
 	"encoding/binary"
 	"fmt"
 	"hash/crc32"
+	"time"
 
 	ml "github.com/hashicorp/memberlist"
 	"github.com/hashicorp/memberlist/vshim/vrand"
@@ -68,3 +69,33 @@ func (d *detChooser) Choose(kind string, n int) int {
 }
 
 func installDetRand() { vrand.Install(&detChooser{}) }
+
+// timeChooser: stand-in for math/rand in multi-node worlds. An index draw
+// depends only on the virtual instant and on how many draws were already made
+// at that instant, never on how many draws other nodes made earlier (a shared
+// counter would couple the nodes and amplify any scheduling difference).
+// Shuffles stay the identity. Over time the draws rotate through all
+// residues, which is the fairness the convergence property assumes.
+type timeChooser struct {
+	last int64
+	k    int64
+}
+
+func (d *timeChooser) Choose(kind string, n int) int {
+	switch kind {
+	case "shuffle":
+		return n - 1
+	case "int63":
+		return 0
+	}
+	now := time.Now().UnixNano() / 1000
+	if now != d.last {
+		d.last, d.k = now, 0
+	}
+	d.k++
+	h := uint64(now)*0x9E3779B97F4A7C15 + uint64(d.k)*0xC2B2AE3D27D4EB4F
+	h ^= h >> 29
+	return int(h % (1 << 30))
+}
+
+func installTimeRand() { vrand.Install(&timeChooser{}) }
